@@ -94,6 +94,9 @@ func c04Long(kind, n int) []byte {
 }
 
 func c04Input(kind, a int) []byte {
+	if kind == 8 {
+		return tmplBytes(attrTemplates[a])
+	}
 	if kind >= 3 {
 		return c04Long(kind, a)
 	}
